@@ -51,7 +51,7 @@ def dec_label(x):
     return x
 
 
-LABEL_SCHEMES = ("int", "perm", "str", "tuple", "npint", "fset", "mixed")
+LABEL_SCHEMES = ("int", "perm", "str", "tuple", "npint", "fset", "mixed", "falsy")
 
 
 def make_labels(rng, n, scheme):
@@ -76,6 +76,13 @@ def make_labels(rng, n, scheme):
         return L
     if scheme == "fset":
         L = [frozenset([i, i + 100]) for i in range(n)]
+        rng.shuffle(L)
+        return L
+    if scheme == "falsy":
+        # labels whose truth value is False (0, '', (), frozenset()) among ordinary ones:
+        # `if node:` style tests in the code under test misbehave exactly for these
+        pool = [0, "", (), frozenset(), "a", 7, (1,), "zz", 3, ("p", 2), 11, "k"]
+        L = (pool + [100 + i for i in range(n)])[:n]
         rng.shuffle(L)
         return L
     if scheme == "mixed":
@@ -149,7 +156,7 @@ def draw_weight(rng, scheme):
 
 
 def gen_graph(rng, nmin=1, nmax=6, directed=False, family=None, label=None,
-              edge_w=None, node_w=None, shuffle=True, extra_edge_attrs=None):
+              edge_w=None, node_w=None, shuffle=True, extra_edge_attrs=None, selfloops=0.0):
     """Explicit graph spec.  edge_w / node_w name a weight scheme or None."""
     n = rng.randint(nmin, nmax)
     family = family or rng.choice(FAMILIES)
@@ -178,6 +185,11 @@ def gen_graph(rng, nmin=1, nmax=6, directed=False, family=None, label=None,
             rng.shuffle(edges)
     else:
         edges = [[i, j, {}] for i, j in pairs]
+    if selfloops and rng.random() < selfloops:
+        for _ in range(rng.randint(1, 2)):
+            i = rng.randrange(n)
+            if not any(e[0] == i and e[1] == i for e in edges):
+                edges.insert(rng.randint(0, len(edges)), [i, i, {}])
     for e in edges:
         if edge_w:
             e[2]["w"] = draw_weight(rng, edge_w)
